@@ -1,48 +1,70 @@
 #!/usr/bin/env python3
 """Must-fail corpus: apply each mutant to a scratch worktree of /repo (outside /repo
 and /verif), run the property's check against it, expect a VIOLATION naming the
-expected obligation; the scratch tree is removed afterwards.
-usage: selftest/run.py [PROP ...]"""
+expected obligation; the scratch trees are removed afterwards.
+usage: selftest/run.py [-j N] [PROP ...]      (N worktrees in parallel, default 1)"""
 import json, os, subprocess, sys, shutil, tempfile, glob
+from concurrent.futures import ThreadPoolExecutor
+import threading, queue
 V='/verif'
-env=dict(os.environ)
 def sh(cmd, **kw): return subprocess.run(cmd, shell=True, capture_output=True, text=True, **kw)
-props=sys.argv[1:]
+args=sys.argv[1:]
+J=1
+if args[:1]==['-j']: J=int(args[1]); args=args[2:]
+props=args
 muts=[]
 for f in sorted(glob.glob(V+'/selftest/C*.json')):
     for m in json.load(open(f)):
         if not props or m['prop'] in props: muts.append(m)
-wt=tempfile.mkdtemp(prefix='govc-selftest-', dir='/tmp')
-os.rmdir(wt)
-r=sh(f'git -C /repo worktree add --detach {wt} HEAD'); assert r.returncode==0, r.stderr
-# contracts that are not committed yet are part of the tree under test
-sh(f"cd /repo && git ls-files -m -o --exclude-standard | grep zz_verif_contracts | while read f; do cp $f {wt}/$f; done")
+def mkwt():
+    wt=tempfile.mkdtemp(prefix='govc-selftest-', dir='/tmp'); os.rmdir(wt)
+    r=sh(f'git -C /repo worktree add --detach {wt} HEAD'); assert r.returncode==0, r.stderr
+    # contracts that are not committed yet are part of the tree under test
+    sh(f"cd /repo && git ls-files -m -o --exclude-standard | grep zz_verif_contracts | while read f; do cp $f {wt}/$f; done")
+    return wt
+lock=threading.Lock()
+wts=queue.Queue()
+allwts=[]
+for _ in range(max(1,min(J,len(muts)))):
+    w=mkwt(); wts.put(w); allwts.append(w)
 ok=bad=0
-try:
-    for m in muts:
+def run(m):
+    global ok,bad
+    wt=wts.get()
+    try:
         path=os.path.join(wt,m['file'])
         src=open(path).read()
         edits=m.get('edits') or [[m['old'],m['new']]]
         if any(o not in src for o,_ in edits):
-            print(f"SKIP  {m['prop']} {m['name']}: pattern not found"); bad+=1; continue
+            with lock: print(f"SKIP  {m['prop']} {m['name']}: pattern not found", flush=True); bad+=1
+            return
         new=src
         for o,n in edits: new=new.replace(o,n,1)
         open(path,'w').write(new)
-        b=sh(f". {V}/env.sh && cd {wt} && go build ./{os.path.dirname(m['file'])}/")
-        if b.returncode!=0:
-            print(f"SKIP  {m['prop']} {m['name']}: does not compile: {b.stderr[:200]}"); bad+=1
-        else:
+        try:
+            b=sh(f". {V}/env.sh && cd {wt} && go build ./{os.path.dirname(m['file'])}/")
+            if b.returncode!=0:
+                with lock: print(f"SKIP  {m['prop']} {m['name']}: does not compile: {b.stderr[:200]}", flush=True); bad+=1
+                return
             r=sh(f". {V}/env.sh && cd {V} && bin/govc check --repo {wt} --noevidence {m['prop']}")
             viol=[l for l in r.stdout.splitlines() if l.startswith('VIOLATION')]
             hit=[l for l in viol if m['expect'] in l]
-            if m.get('harmless'):
-                if viol or r.returncode!=0: print(f"FALSE-ALARM {m['prop']} {m['name']}: {viol[:1]} rc={r.returncode}"); bad+=1
-                else: print(f"ok    {m['prop']} {m['name']} (harmless edit, no alarm)"); ok+=1
-            elif hit: print(f"ok    {m['prop']} {m['name']}: {len(viol)} violation(s)"); ok+=1
-            else:
-                print(f"MISSED {m['prop']} {m['name']}: rc={r.returncode} viol={[v[:160] for v in viol[:2]]}"); bad+=1
-        open(path,'w').write(src)
+            with lock:
+                if m.get('harmless'):
+                    if viol or r.returncode!=0: print(f"FALSE-ALARM {m['prop']} {m['name']}: {viol[:1]} rc={r.returncode}", flush=True); bad+=1
+                    else: print(f"ok    {m['prop']} {m['name']} (harmless edit, no alarm)", flush=True); ok+=1
+                elif hit: print(f"ok    {m['prop']} {m['name']}: {len(viol)} violation(s)", flush=True); ok+=1
+                else:
+                    print(f"MISSED {m['prop']} {m['name']}: rc={r.returncode} viol={[v[:160] for v in viol[:2]]}", flush=True); bad+=1
+        finally:
+            open(path,'w').write(src)
+    finally:
+        wts.put(wt)
+try:
+    with ThreadPoolExecutor(max_workers=max(1,J)) as ex:
+        list(ex.map(run, muts))
 finally:
-    sh(f'git -C /repo worktree remove --force {wt}'); shutil.rmtree(wt, ignore_errors=True)
+    for wt in allwts:
+        sh(f'git -C /repo worktree remove --force {wt}'); shutil.rmtree(wt, ignore_errors=True)
 print(f"selftest: {ok} ok, {bad} not ok, of {len(muts)}")
 sys.exit(0 if bad==0 else 1)
